@@ -705,4 +705,131 @@ theorem fold_exact (s : Server) (hw : WF s) (hna : NoAliases s) (pk : Msg) (ht :
       · intro x hx
         exact q6 x (List.mem_append_left _ hx)
 
+/-! ### who is written, declaratively -/
+
+/-- connection `n` is SERVED: its client is entitled through the entry `(cid, sub)` of the subscriber map
+    (`EntitledVia`) and the copy is QoS 0 or the delivery is in case (d) (`verdict = sent`) -/
+def ServedVia (s : Server) (pk : Msg) (subs : List (Str × Sub)) (n : Nat) : Prop :=
+  ∃ cid i sub, (cid, i) ∈ s.clients ∧ (getObj s i).conn = n ∧ (getObj s i).isOpen = true ∧
+    (getObj s i).inline = false ∧ (getObj s i).peerGone = false ∧ (cid, sub) ∈ subs ∧
+    aclOk s cid pk.topic false = true ∧ (sub.noLocal && pk.origin == cid) = false ∧
+    (shapeQos s.caps sub pk.qos = 0 ∨ ∃ pid, verdict s i = .sent pid)
+
+theorem ServedVia.entitled {s : Server} {pk : Msg} {subs : List (Str × Sub)} {n : Nat} (h : ServedVia s pk subs n) :
+    EntitledVia s pk subs n := by
+  obtain ⟨cid, i, sub, h1, h2, h3, h4, h5, h6, h7, h8, _⟩ := h
+  exact ⟨cid, i, sub, h1, h2, h3, h4, h5, h6, h7, h8⟩
+
+theorem isSent_iff (v : Verdict) : isSent v = true ↔ ∃ pid, v = .sent pid := by
+  cases v <;> simp [isSent]
+
+theorem served_true_iff (s : Server) (i : Nat) (sub : Sub) (pk : Msg) :
+    served s i sub pk = true ↔ gate s i sub pk = true ∧ (shapeQos s.caps sub pk.qos = 0 ∨ ∃ pid, verdict s i = .sent pid) := by
+  unfold served
+  rw [Bool.and_eq_true, Bool.or_eq_true, beq_iff_eq, isSent_iff]
+
+theorem recipientQ_eq_some (s : Server) (pk : Msg) (cs : Str × Sub) (n : Nat) :
+    recipientQ s pk cs = some n ↔
+      ∃ i, assocGet s.clients cs.1 = some i ∧ served s i cs.2 pk = true ∧ (getObj s i).conn = n := by
+  unfold recipientQ
+  cases assocGet s.clients cs.1 with
+  | none => simp
+  | some i =>
+    simp only [Option.some.injEq, exists_eq_left']
+    split
+    · rename_i hg
+      simp [hg]
+    · rename_i hg
+      simp [hg]
+
+theorem recipientQ_sub (s : Server) (pk : Msg) (cs : Str × Sub) (n : Nat) (h : recipientQ s pk cs = some n) :
+    recipient s pk cs = some n := by
+  obtain ⟨i, hi, hs, hn⟩ := (recipientQ_eq_some s pk cs n).mp h
+  exact (recipient_eq_some s pk cs n).mpr ⟨i, hi, ((served_true_iff s i cs.2 pk).mp hs).1, hn⟩
+
+theorem mem_recipientsQ (s : Server) (hw : WF s) (pk : Msg) (subs : List (Str × Sub)) (n : Nat) :
+    n ∈ subs.filterMap (recipientQ s pk) ↔ ServedVia s pk subs n := by
+  rw [List.mem_filterMap]
+  constructor
+  · rintro ⟨cs, hcs, h⟩
+    obtain ⟨i, hi, hs, hn⟩ := (recipientQ_eq_some s pk cs n).mp h
+    obtain ⟨hg, hv⟩ := (served_true_iff s i cs.2 pk).mp hs
+    have hm := assocGet_mem _ _ _ hi
+    have hid := (hw.clients_valid _ _ hm).2
+    obtain ⟨g1, g2, g3, g4, g5⟩ := (gate_true_iff s i cs.2 pk).mp hg
+    rw [hid] at g1 g2
+    exact ⟨cs.1, i, cs.2, hm, hn, g3, g4, g5, hcs, g2, g1, hv⟩
+  · rintro ⟨cid, i, sub, hm, hn, g3, g4, g5, hcs, g2, g1, hv⟩
+    refine ⟨(cid, sub), hcs, (recipientQ_eq_some s pk _ n).mpr
+      ⟨i, assocGet_of_mem_nodup _ _ _ hw.clients_nodup hm, (served_true_iff s i sub pk).mpr ⟨?_, hv⟩, hn⟩⟩
+    have hid := (hw.clients_valid _ _ hm).2
+    exact (gate_true_iff s i sub pk).mpr ⟨by rw [hid]; exact g1, by rw [hid]; exact g2, g3, g4, g5⟩
+
+theorem recipientsQ_nodup (s : Server) (hw : WF s) (hcd : ConnDistinct s) (pk : Msg) (subs : List (Str × Sub))
+    (hnd : (subs.map Prod.fst).Nodup) : (subs.filterMap (recipientQ s pk)).Nodup := by
+  have hp : subs.Pairwise (fun a b => a.1 ≠ b.1) := List.pairwise_map.mp hnd
+  refine List.Pairwise.filterMap (recipientQ s pk) ?_ hp
+  intro a a' hne n hn n' hn' e
+  subst e
+  obtain ⟨i, hi, hg, hc⟩ := (recipient_eq_some s pk a n).mp (recipientQ_sub s pk a n hn)
+  obtain ⟨j, hj, hg', hc'⟩ := (recipient_eq_some s pk a' n).mp (recipientQ_sub s pk a' n hn')
+  have vi := hw.clients_valid _ _ (assocGet_mem _ _ _ hi)
+  have vj := hw.clients_valid _ _ (assocGet_mem _ _ _ hj)
+  have := hcd i j vi.1 vj.1 ((gate_true_iff s i a.2 pk).mp hg).2.2.2.1 ((gate_true_iff s j a'.2 pk).mp hg').2.2.2.1
+    (hc.trans hc'.symm)
+  subst this
+  exact hne (vi.2.symm.trans vj.2)
+
+theorem served_stamped (s : Server) (pk : Msg) (i : Nat) (sub : Sub) :
+    served s i sub (stamped s pk) = served s i sub pk := by
+  unfold served
+  rw [gate_stamped, (stamped_fields s pk).2.2.1]
+
+theorem recipientQ_stamped (s : Server) (pk : Msg) : recipientQ s (stamped s pk) = recipientQ s pk := by
+  funext cs
+  unfold recipientQ
+  split
+  · rfl
+  · rw [served_stamped]
+
+/-- **the delivery theorem for a publication of any QoS** (state level, no matching shared subscription, no
+    outbound aliases), with `out`/`final` the outputs / final state of `publishToSubscribers s pk`:
+    1. the connections written a PUBLISH, in order, are the SERVED entries of the subscriber map, in order;
+    2. the object of every registered entry ends as `entryObj` says (read off the state before);
+    3. every output is an inline delivery or an output of a registered entry (`entryOut`), and conversely. -/
+theorem subscribers_exact (s : Server) (hw : WF s) (hna : NoAliases s) (pk : Msg) (hig : pk.ignore = false)
+    (ht : pk.type = 3) (hsh : (subscribers s.topics pk.topic).shared = [])
+    (hnd : ((subscribers s.topics pk.topic).subs.map Prod.fst).Nodup) :
+    (publishToSubscribers s pk).2.filterMap pubConn =
+      (subscribers s.topics pk.topic).subs.filterMap (recipientQ s pk) ∧
+    (∀ cs ∈ (subscribers s.topics pk.topic).subs, ∀ i, assocGet s.clients cs.1 = some i →
+      getObj (publishToSubscribers s pk).1 i = entryObj s i cs.2 (stamped s pk)) ∧
+    (∀ k, (∀ cs ∈ (subscribers s.topics pk.topic).subs, assocGet s.clients cs.1 ≠ some k) →
+      getObj (publishToSubscribers s pk).1 k = getObj s k) ∧
+    (∀ x ∈ (publishToSubscribers s pk).2, (∃ id, x = Out.inline id pk.topic pk.payload) ∨
+      ∃ cs ∈ (subscribers s.topics pk.topic).subs, ∃ i, assocGet s.clients cs.1 = some i ∧
+        x ∈ entryOut s i cs.2 (stamped s pk)) ∧
+    (∀ cs ∈ (subscribers s.topics pk.topic).subs, ∀ i, assocGet s.clients cs.1 = some i →
+      ∀ x ∈ entryOut s i cs.2 (stamped s pk), x ∈ (publishToSubscribers s pk).2) := by
+  rw [publishToSubscribers_eq_fold s pk hig hsh]
+  obtain ⟨q1, q2, q3, q4, q5, _⟩ := fold_exact s hw hna (stamped s pk) ((stamped_fields s pk).2.2.2.1.trans ht)
+    (subscribers s.topics pk.topic).subs hnd
+    (s, (subscribers s.topics pk.topic).inline.map fun x => Out.inline x.1 pk.topic pk.payload)
+    ⟨rfl, rfl, rfl, rfl, fun _ _ _ _ => rfl⟩
+  refine ⟨?_, q2, q3, ?_, q5⟩
+  · rw [q1, recipientQ_stamped]
+    have : ((subscribers s.topics pk.topic).inline.map fun x => Out.inline x.1 pk.topic pk.payload).filterMap pubConn
+        = [] := by
+      rw [List.filterMap_map]
+      apply List.filterMap_eq_nil_iff.mpr
+      intro a _
+      rfl
+    show List.filterMap pubConn _ ++ _ = _
+    rw [this, List.nil_append]
+  · intro x hx
+    rcases q4 x hx with h | h
+    · obtain ⟨a, _, rfl⟩ := List.mem_map.mp h
+      exact Or.inl ⟨a.1, rfl⟩
+    · exact Or.inr h
+
 end Mochi.Broker.Q1
